@@ -111,21 +111,7 @@ def scenarios_for(seed, nrandom):
             out.append({"handler": "example", "nconns": 1, "steps": [{"c": 0, "op": "send", "chunking": "bytes", "reqs": [fr]}, {"c": 0, "op": "halfclose"}]})
     # several connections answered at the same time through a slow transport: a reply must not change between the moment it
     # is built and the moment the transport has taken it (serialization buffers shared between connections)
-    for variant in range(8):
-        steps = []
-        for c in range(4):
-            reqs = []
-            for i in range(12):
-                size = [1, 7, 64, 300, 1500, 5000][(i + c + variant) % 6]
-                raw = tok("raw")
-                raw["raw"] = [97 + c] * size
-                reqs.append(R("ECHO", raw))
-                if i % 3 == 0:
-                    reqs.append(R("MGET", tok("key", "k1"), tok("key", "k2")))
-                if i % 4 == 1:
-                    reqs.append(R("CONFIG", tok("word", w="GET"), raw))
-            steps.append({"c": c, "op": "send", "chunking": "perreq", "reqs": reqs})
-        out.append({"handler": "rec", "nconns": 4, "concurrent": True, "slowwrite": True, "steps": steps})
+    out += [cmdlib.concurrent_slow(v) for v in range(8)]
     rng = random.Random(seed)
     for _ in range(nrandom):                       # random payloads over all byte values
         n = rng.choice([0, 1, 2, 3, 8, 40])
